@@ -43,8 +43,8 @@ CLAIMED = {
  "C17": dict(text="Verus on the real Router::run: '!acked' is an invariant of the service loop (no select, no handler call, no registration after the acknowledgement: call-site obligations), every callback has been dropped when the acknowledgement is sent (ghost count at the ack stub == 0), run leaves no callback behind when it stops by shutdown or proxy drop, and both unwraps / the expect are total. Racing shutdown/add_route callers are argued only from 'one mutex, never taken by run'.",
              design="DESIGN.md 3/U6, 4/C17, 5", technique="Verus invariants + call-site preconditions (ghost 'acked' flag) on extracted real code",
              note="Trusted: as C07; the proxy is blocked on the acknowledgement channel when the ack is sent; termination of the service loop is not claimed (exec_allows_no_decreases_clause)."),
- "C11": dict(text="Part of the property: per-operation ownership contracts 'created - closed = owned by the returned handles' proved by Kani on the REAL functions (real drop elaboration) with socket/socketpair/connect/close/munmap replaced by a descriptor ledger: channel() both outcomes, OsIpcSender::connect with connect(2)/socket(2) failing nondeterministically, OsIpcReceiver::consume + drops, OsIpcSender clone x2 + drops (one close, at the last drop), OsOpaqueIpcChannel converted/unconverted + drop, OsIpcSharedMemory drop (munmap iff mapped, one close); SOCK_CLOEXEC / MSG_CMSG_CLOEXEC asserted in the stubs; never close(-1), never twice. Loop-free harnesses over fully symbolic syscall outcomes: complete, not bounded. NOT covered: send's dedicated pair and recv's error paths, OsIpcOneShotServer, OsIpcReceiverSet, router, temp files.",
-             design="DESIGN.md 3/K-ledger, 4/C11", technique="Kani loop-free harnesses on the real crate with libc stubbed by a descriptor ledger",
+ "C11": dict(text="Part of the property: per-operation ownership contracts 'created - closed = owned by the returned handles' proved by Kani on the REAL functions (real drop elaboration) with socket/socketpair/connect/close/munmap replaced by a descriptor ledger: channel() both outcomes, OsIpcSender::connect with connect(2)/socket(2) failing nondeterministically, OsIpcReceiver::consume + drops, OsIpcSender clone x2 + drops (one close, at the last drop), OsOpaqueIpcChannel converted/unconverted + drop, OsIpcSharedMemory drop (munmap iff mapped, one close); SOCK_CLOEXEC / MSG_CMSG_CLOEXEC asserted in the stubs; never close(-1), never twice. Loop-free harnesses over fully symbolic syscall outcomes: complete, not bounded. Verus on the extracted real code adds: OsIpcOneShotServer::{new, accept, drop} and OsIpcSender::connect with every system call free to fail (no descriptor left unowned on any path, the owner's Drop closes exactly its own descriptor), OsIpcReceiverSet::add (descriptor stays with its receiver on failure), select (a closed member is closed exactly once) and OsIpcReceiverSet::drop (every member closed exactly once, nothing else), OsIpcSharedMemory drop/clone (U8). NOT covered: send's dedicated pair and recv's error paths (Drop is invisible to Verus), the router's handles, removal of temp files (tempfile's TempDir).",
+             design="DESIGN.md 3/K-ledger, 4/C11", technique="Kani loop-free harnesses on the real crate with libc stubbed by a descriptor ledger + Verus ledger contracts on extracted real code",
              note="Trusted: the ledger stubs (fresh descriptors, close succeeds), Kani/CBMC; histories are covered only through composition of the per-operation contracts."),
  "C03": dict(text="Part of the property (mechanisms, not the history quantifier): Verus on the real conversions - TryRecvError::Empty iff Errno(EAGAIN|EWOULDBLOCK), Disconnected iff UnixError::ChannelClosed (TryRecvError and IpcError), channel_is_closed() only for ChannelClosed; Kani on the real UnixCmsg::recv - ChannelClosed iff recvmsg returned 0, for all three blocking modes; Kani ledger - the shared descriptor of cloned senders is closed once, at the last drop; Verus on unix::recv - ChannelClosed only for EOF on the channel's own socket (open known finding, shared with C12). That the kernel reports EOF exactly when no descriptor (in flight or not) refers to the peer is assumed; clone/embed/drop races are not addressed.",
              design="DESIGN.md 3/U3 U4 K-ledger, 4/C03", technique="Verus postconditions on extracted conversions + Kani loop-free harnesses on the real crate"),
